@@ -12,9 +12,9 @@ Never touches /repo or /verif/harness: /repo is copied to /var/tmp/stats-repo, t
 bin/props/cNN.py is run with vlib pointed at the scratch harness; evidence and replay files of
 these runs go to /verif/work/stats-selftest (git-ignored).
 
-The scratch repository carries the candidate repair of finding F6 (TearSheetGenerator::generate:
-wins = total - losses, gross profit = total sum - loss sum) so that C16 mutants are judged against
-a tree on which C16 holds.
+C16 mutants are judged against a tree on which C16 holds: if /repo predates the repair of finding
+F6 (TearSheetGenerator::generate: wins = total - losses, gross profit = total sum - loss sum), the
+repair is applied to the scratch copy first.
 """
 import importlib
 import json
@@ -74,7 +74,9 @@ def prepare():
            % (REPO, VERIF, HARN, REPO, HARN, HARN))
     if r.returncode:
         sys.exit("cannot prepare scratch copies:\n" + r.stdout)
-    edit(F6_FIX[0], F6_FIX[1])
+    # (finding F6 is repaired in /repo since 6e47554; on an older tree the repair is applied to the copy)
+    present = open(os.path.join(REPO, F6_FIX[0])).read()
+    edit(F6_FIX[0], [pr for pr in F6_FIX[1] if pr[0] in present])
 
 
 def edit(rel, pairs):
@@ -112,7 +114,7 @@ def main():
     if "--baseline" in a:
         for pid in ("C16", "C17", "C18"):
             rc, lines = run_check(pid)
-            print("baseline %s on the scratch tree (F6 repaired): exit %d  %s" % (pid, rc, lines[-1] if lines else ""), flush=True)
+            print("baseline %s on the scratch tree: exit %d  %s" % (pid, rc, lines[-1] if lines else ""), flush=True)
             if rc != 0:
                 failed.append(pid)
                 print("\n".join(lines[:6]))
